@@ -170,26 +170,25 @@ example : sarRoundSmulwwC 2147483647 26345472 8 = -2 ∧ sarRoundSmulww64 214748
     compute, in every lane and for all 32-bit operands, what the C macros of silk_NSQ_del_dec_c compute:
     `silk_mm_add_sat_epi32` = silk_ADD_SAT32 (= the mathematical clamp), `silk_mm_sub_sat_epi32` = silk_SUB_SAT32,
     `silk_mm_limit_epi32` = silk_LIMIT_32 for either order of the limits, `silk_mm_smulww_epi32` = silk_SMULWW,
-    `silk_mm_smulwb_epi32` = silk_SMULWB, `silk_mm256_rand_epi32` = silk_RAND; `silk_mm_srai_round_epi32(a, bits)` =
-    silk_RSHIFT_ROUND(a, bits) for the two shift counts used (4, 10) PROVIDED `a + 2^(bits-1)` does not wrap — above that
-    point the helper differs from the macro (next example).  The order in which the kernel composes these helpers is
-    not modelled (UNPROVED `nsq_del_dec_simd_eq_c`). -/
-theorem nsq_del_dec_avx2_lane_ops_eq_c (a b c : Int) (ha : I32 a) (hb : I32 b) :
+    `silk_mm_smulwb_epi32` = silk_SMULWB, `silk_mm256_rand_epi32` = silk_RAND; `silk_mm_srai_round_epi32(a, bits)` (as
+    committed in b1d58384) = silk_RSHIFT_ROUND(a, bits) for every 32-bit `a` and every shift count 2..30, saturated
+    inputs included.  The order in which the kernel composes these helpers is not modelled (UNPROVED
+    `nsq_del_dec_simd_eq_c`). -/
+theorem nsq_del_dec_avx2_lane_ops_eq_c (a b c : Int) (bits : Nat) (ha : I32 a) (hb : I32 b) (hbits : 2 ≤ bits) :
     addSatLane a b = addSat32C a b ∧ addSat32C a b = max (-2147483648) (min 2147483647 (a + b)) ∧
     subSatLane a b = subSat32C a b ∧ limitLane a b c = limit a b c ∧
     wrap32 (smulwwLaneAvx2 a b) = smulww a b ∧ wrap32 (smulwbLaneAvx2 a b) = smulwb a b ∧ randLane a = randC a ∧
-    (a < 2147483648 - 8 → sraiRoundLane a 4 = rshiftRound a 4) ∧
-    (a < 2147483648 - 512 → sraiRoundLane a 10 = rshiftRound a 10) :=
+    sraiRoundLane a bits = rshiftRound a bits :=
   ⟨addSatLane_eq a b ha hb, addSat32C_clamp a b ha hb, subSatLane_eq a b ha hb, limitLane_eq a b c,
-   smulwwLaneAvx2_eq a b, smulwbLaneAvx2_eq a b, randLane_eq a, (sraiRoundLane_eq a ha).1, (sraiRoundLane_eq a ha).2⟩
+   smulwwLaneAvx2_eq a b, smulwbLaneAvx2_eq a b, randLane_eq a, sraiRoundLane_eq a ha bits hbits⟩
 
 example : addSatLane 2147483000 5000 = 2147483647 ∧ subSatLane (-2147483000) 5000 = -2147483648 ∧
     limitLane 40000 (30 * 1024) (-(31 * 1024)) = 30720 ∧ wrap32 (smulwbLaneAvx2 (-70000) 40000) = 27275 ∧
     randLane 12345 = randC 12345 := by decide
-/- OBSERVATION (not witnessed on an encoder state): at the top of the range the rounding shift of the AVX2 kernel and the C
-   macro disagree — and 2147483647 is exactly what the preceding `silk_mm_sub_sat_epi32` delivers when it saturates
-   (NSQ_del_dec_avx2.c:757-758 vs NSQ_del_dec.c:456-457): C gives +2^27, the helper -2^27. -/
-example : sraiRoundLane 2147483647 4 = -134217728 ∧ rshiftRound 2147483647 4 = 134217728 := by decide
+/- the saturated input the preceding `silk_mm_sub_sat_epi32` can deliver: the committed helper gives the C value +2^27;
+   the form before b1d58384 (`(a + 8) >> 4` with a wrapping add) gave -2^27 (regression case in corpus/C15). -/
+example : sraiRoundLane 2147483647 4 = 134217728 ∧ rshiftRound 2147483647 4 = 134217728 ∧
+    sraiRoundLaneOld 2147483647 4 = -134217728 := by decide
 
 /-- The relational property the codec needs from the PVQ pulse search, for `op_pvq_search_sse2` and `op_pvq_search_c`
     alike: WHATEVER the floating-point parts return — the pre-search counts `proj` (SSE2: `_mm_cvttps_epi32` of an
